@@ -607,9 +607,12 @@ MANIFEST = {
         "thorough). Executed, not modelled: sympy's lambdify/cse and standard printers, numpy (einsum, broadcasting), "
         "floating-point rounding (the oracle bounds it condition-aware: relative error of gamma ~ eps*(2 gamma^2+8)). "
         "The oracle also runs instances with compound arguments (sums, 1-eps, quotients, products with a sum, velocities "
-        "computed from a momentum, p+q, the boost chain BoostMatrix(B(q)p)). Observation point is lambdify(expr.doit()); "
-        "rewriting the arguments of an _…Implementation object after doit() (e.g. .expand()) is outside it — the "
-        "template_hole_probe in the evidence lists the holes ('-{gamma_beta}', '-{sin_angle}') that are not protected then. "
+        "computed from a momentum, p+q, the boost chain BoostMatrix(B(q)p)) and implementation objects REWRITTEN after "
+        "doit() (expand(), expand(trig=True), xreplace of an argument by an equal sum, direct construction with a sum "
+        "argument). template_hole_probe is GATING: every argument hole of the four _…Implementation._numpycode templates "
+        "is filled with a sum / product / negated product / quotient / power / negated symbol and the generated code must "
+        "have the value of the code for a symbol with the parenthesised expression substituted (numpy, three random "
+        "draws); an unprotected hole is a broken correspondence and the oracle supplies the failing input. "
         "Real-number theorems use Lean's x/0 = 0 only in the unconditional 'code = explicit' equalities."
     ),
 }
